@@ -140,6 +140,16 @@ def bitmap_templates():
     # a bitmap defined INSIDE a replication, once per repetition
     t.append([106000, 31001, 12101, 222000, 101001, 31031, 33007, 235000])
     t.append([105002, 12001, 223000, 101001, 31031, 223255, 235000])
+    # two single markers, the first under an operator that is closed before the second (what the compiler captures at one
+    # marker must not reach the next)
+    t.append([12101, 12101, 224000, 236000, 101002, 31031, 8023, 201130, 224255, 201000, 224255, 1002])
+    t.append([1015, 1008, 223000, 101002, 31031, 208002, 223255, 208000, 223255])
+    t.append([12001, 7001, 225000, 101002, 31031, 8024, 207001, 225255, 207000, 225255])
+    t.append([11003, 12101, 232000, 101002, 31031, 202129, 232255, 202000, 232255])
+    # a delayed replication in front of a window of DIFFERENT elements: the same flat position holds another element
+    # from one subset to the next
+    t.append([101000, 31001, 12001, 10004, 7001, 223000, 101002, 31031, 101000, 31001, 223255])
+    t.append([101000, 31001, 1001, 12001, 2001, 11003, 224000, 101003, 31031, 8023, 101000, 31001, 224255])
     # three chained operators sharing one bitmap
     t.append([12001, 13011, 222000, 236000, 101002, 31031, 101000, 31001, 33007,
               224000, 237000, 8023, 101000, 31001, 224255, 225000, 237000, 8024, 101000, 31001, 225255])
@@ -165,6 +175,8 @@ def open_templates():
     t.append([12001, 11003, 224000, 236000, 101002, 31031, 8023, 101000, 31001, 224255])   # bitmap kept for reuse
     t.append([101000, 31001, 12001, 222000, 101000, 31001, 31031, 101000, 31001, 33007])
     t.append([12001, 11003, 223000, 101002, 31031, 101000, 31001, 223255, 235000, 7001])
+    t.append([101000, 31001, 12001, 10004, 7001, 223000, 101002, 31031, 101000, 31001, 223255])     # window slides over different elements
+    t.append([101000, 31001, 1001, 12001, 11003, 225000, 101002, 31031, 8024, 101000, 31001, 225255])
     return t
 
 
@@ -181,4 +193,9 @@ def catalogue(tier, seed=0):
         # (kept for experiments) the seed rotates which of the heavier templates are included
         s = s[:8] + sample(s[8:], 5, rnd)
         b = b[:6] + sample(b[6:], 4, rnd)
-    return {'plain': p, 'struct': s, 'bitmap': b, 'open': open_templates()}
+    # grammar-derived templates (vf/gen.py): a fresh draw per seed, more of them in the thorough tier
+    from . import gen
+    n = 12 if tier == 'quick' else 60
+    g = gen.generate(seed, n, n, n)
+    return {'plain': p, 'struct': s, 'bitmap': b, 'open': open_templates(),
+            'rnd_plain': g['plain'], 'rnd_struct': g['struct'], 'rnd_bitmap': g['bitmap']}
